@@ -372,6 +372,9 @@ class Weaver:
         return self.srcs[rel]
 
     def emit(self, text, origin):
+        # every spec-side lemma gets its own solver instance: its verdict must not depend on /repo's text
+        if origin[0] in ('prelude', 'spec'):
+            text = re.sub(r'(?m)^(?!.*spinoff_prover)([ \t]*)(pub proof fn )', r'\1#[verifier::spinoff_prover] \2', text)
         self.out.append((text.rstrip('\n') + '\n', origin))
 
     def emit_fn_block(self, header, member, origin, is_trait):
